@@ -444,6 +444,8 @@ def run_bfs(case):
                     if level < depth and (k not in seen or not case.get('dedup', True)):
                         seen.add(k)
                         for op in w.enabled():
+                            if op[0] == 'become_cyc' and level + 1 == depth and not case.get('cyc_last', True):
+                                continue     # thorough: cycle-closing replacements from every state below the last level
                             nxt.append(hist + [op])
                 frontier = nxt
                 level += 1
@@ -496,7 +498,8 @@ def run(ctx):
                 if v2:
                     continue
                 for op2 in w2.enabled():
-                    cases.append({'kind': 'bfs', 'seed_model': sk, 'prefix': [list(op), list(op2)], 'depth': depth})
+                    cases.append({'kind': 'bfs', 'seed_model': sk, 'prefix': [list(op), list(op2)], 'depth': depth,
+                                  'cyc_last': depth <= 3})
     finally:
         shutil.rmtree(root, ignore_errors=True)
 
@@ -521,6 +524,8 @@ def run(ctx):
     ctx.assumptions += [
         'become(x, y) is explored for replacement nodes y without children that are not descendants of x (the documented use: '
         'the statement does not say what happens to other children of the replacement)',
+        'cycle-closing become (replacement = the node itself or a descendant): judged on the invariants only (refused without '
+        'altering the model, or an acyclic consistent graph); at depth 4 these operations are applied in every state up to depth 2, like in the quick tier',
         'reference model: dict graph written from the statement (vmc/checks/c14.py RefModel)',
         'seeded generate is compared right after copy() / save()+load(); exceptions are part of the observation',
         'random private node names are pinned (uuid4 counter)',
